@@ -87,18 +87,17 @@ def pnrmseAdj (ps : List (α × α)) (k : Nat) : Option α := Gen.safe_divide (r
 def nmae (ps : List (α × α)) : Option α := Gen.safe_divide (mae ps) (mean (obs ps)) minDenominator
 def nmbe (ps : List (α × α)) : Option α := Gen.safe_divide (mbe ps) (mean (obs ps)) minDenominator
 
-/-- the base quantities of a series of finite (observed, predicted) pairs, as the hand model
-computes them; `nPrime` (the autocorrelation-corrected n) is left as a parameter -/
-def baseOf (ps : List (α × α)) (k : Nat) (nPrime : α) : MetricBase α :=
-  { n := nOf ps, num_model_params := Arith.ofNat k, min_denominator := minDenominator,
-    mae := mae ps, r_squared := rSquared ps, n_prime := nPrime,
-    observed_mean := mean (obs ps), observed_iqr := iqr (obs ps),
-    residuals_mean := mean (resid ps), residuals_sum_squared := sse ps }
-
 /-- lag-1 autocorrelation of the residuals -/
 def autocorr1 (ps : List (α × α)) : α :=
   let r := resid ps
   pearson r.tail r.dropLast
+
+/-- the base quantities of a series of finite (observed, predicted) pairs, as the hand model computes them -/
+def baseOf (ps : List (α × α)) (k : Nat) : MetricBase α :=
+  { n := nOf ps, num_model_params := Arith.ofNat k, min_denominator := minDenominator,
+    mae := mae ps, r_squared := rSquared ps, residuals_autocorr1 := autocorr1 ps,
+    observed_mean := mean (obs ps), observed_iqr := iqr (obs ps),
+    residuals_mean := mean (resid ps), residuals_sum_squared := sse ps }
 
 /-- `ReportingMetrics.savings = predicted_sum − observed_sum` -/
 def savings (ps : List (α × α)) : α := asum (pred ps) - asum (obs ps)
